@@ -39,6 +39,8 @@ type Options struct {
 	Stdin        string
 	ExitCodeFlag bool
 	NotSilent    bool
+	ListJSON     bool // instead of running tasks: e.ListTasks(list-all, json)
+	SchedSetup   bool // Setup's reader/merge goroutines are scheduler threads too (not run inline)
 }
 
 type CallSpec struct {
@@ -176,11 +178,19 @@ func (sc *Scenario) Body(dir string, x *Exec, probe *Probe, raw *RawWriter) func
 			opts = append(opts, task.WithOutputStyle(o))
 		}
 		e := task.NewExecutor(opts...)
-		vsched.Inline(true)
+		if !sc.Opts.SchedSetup {
+			vsched.Inline(true)
+		}
 		err := e.Setup()
-		vsched.Inline(false)
+		if !sc.Opts.SchedSetup {
+			vsched.Inline(false)
+		}
 		if err != nil {
 			x.Err = err
+			return
+		}
+		if sc.Opts.ListJSON {
+			_, x.Err = e.ListTasks(task.ListOptions{ListAllTasks: true, FormatTaskListAsJSON: true})
 			return
 		}
 		var calls []*task.Call
@@ -216,6 +226,15 @@ func (sc *Scenario) Runner(dir string) func(cfg vsched.Config) *Exec {
 		if sc.Raw || sc.BodyFn != nil {
 			for _, w := range raw.Writes {
 				x.Trace = append(x.Trace, Event{'W', w, 0})
+			}
+		}
+		if races := CollectRaces(); len(races) > 0 {
+			seen := map[string]bool{}
+			for _, r := range races {
+				if !seen[r.Sig] {
+					seen[r.Sig] = true
+					x.Races = append(x.Races, r)
+				}
 			}
 		}
 		if x.Res.Pruned || x.Res.Diverged != "" {
